@@ -129,4 +129,32 @@ def rule_loop(ctx):
                   'the issuing CA\'s chain is searched for the child\'s key', 'check_loop(%s, %s)' % (arg_desc(s, 0), arg_desc(s, 1)), loc=s.loc())
 
 
-RULES = [rule_ctor, rule_chain, rule_loop]
+def rule_overrun_is_local(ctx):
+    """A too-deep or looping CA certificate is dropped and processing continues: its Err never leaves process_ca_cer."""
+    from lib.tables import enumerate_paths
+    import re as _re
+    b = ctx.body('engine::PubPoint::process_ca_cer')
+    n = 0
+    for p in enumerate_paths(b, ctx.facts):
+        if p.kind != 'return':
+            continue
+        cm = p.cond_map()
+        failed = None
+        for v, labs in cm.items():
+            if 'CaCert::chain' in v and labs and set(labs) <= {'Err', 'fail'}:
+                failed = 'depth limit (CaCert::chain)'
+            if _re.search(r'is_err\(call:CaCert::check_loop|CaCert::check_loop', v) and (
+                    (set(labs) <= {'true'} and 'is_err' in v) or (set(labs) <= {'Err', 'fail'} and 'is_err' not in v)):
+                failed = failed or 'loop test (CaCert::check_loop)'
+        if failed is None:
+            continue
+        n += 1
+        ctx.check((p.outcome or '').startswith('Result::Ok('), 'K4', 'process_ca_cer:%s=>dropped-locally' % failed.split(' (')[0].replace(' ', '-'),
+                  'a CA certificate failing the %s is dropped (Ok) and the rest of the tree is processed' % failed,
+                  'a CA certificate failing the %s makes process_ca_cer return `%s`: an Err here ends the WHOLE validation run '
+                  '(it propagates to process_ca_task -> run_failed) instead of just dropping that CA' % (failed, (p.outcome or '')[:80]),
+                  loc=p.ret_site.loc() if p.ret_site else None)
+    ctx.floor('K4', 'paths of process_ca_cer on which the depth/loop test fails', n, 2)
+
+
+RULES = [rule_ctor, rule_chain, rule_loop, rule_overrun_is_local]
